@@ -161,6 +161,7 @@ class NullImpl:
     """Calibration: a context manager that does nothing; the model is the identity."""
 
     name = "null"
+    reg = None
 
     def fresh(self, spec):
         return _NullCM()
@@ -363,6 +364,17 @@ class ThreadProg:
             with contextlib.suppress(BaseException):
                 self.block(st[1])
             self.probe_hit("foreign_suppress_block")
+        elif op == "read":
+            # the public read-only accessors, called as user code would call them inside and between bodies.
+            # They are workload, not oracle: the property does not speak about them (on the unchanged tree
+            # `str(register)` raises the sticky inexact flag), but whatever they do to the register is then
+            # subject to the enter / exit / final checks like anything else a body does.
+            try:
+                self.impl.reg.FZ, self.impl.reg.DAZ, str(self.impl.reg)
+                self.stat("accessor_reads")
+            except AttributeError:
+                self.stat("api_unsupported")
+            self.model = (self.model & ~STATUS) | (self.obs.read() & STATUS)
         elif op == "drop":
             # the user forgets a pre-built context object (its finaliser, if any, runs here or at the next gc)
             if st[1] not in self.active and self.slots.pop(st[1], None) is not None:
@@ -540,7 +552,9 @@ def gen_block(rng, kn, depth, budget):
             out.append(["raise", rng.choice(kn["excs"])])
         elif r < kn["p_with"] + 0.29 + kn["p_raise"] and depth >= 1 and kn.get("poke"):
             out.append(["poke", gen_init(rng, "arith")])
-        elif r < kn["p_with"] + 0.33 + kn["p_raise"] and kn.get("gc"):
+        elif r < kn["p_with"] + 0.31 + kn["p_raise"]:
+            out.append(["read"])
+        elif r < kn["p_with"] + 0.35 + kn["p_raise"] and kn.get("gc"):
             out.append(["gc"] if rng.random() < 0.6 else ["drop", rng.randrange(kn["slots"])])
         elif r < kn["p_with"] + 0.36 + kn["p_raise"] and depth < kn["max_depth"]:
             catches = rng.sample(kn["excs"], rng.randint(1, len(kn["excs"])))
@@ -968,7 +982,7 @@ def _nullify(block):
     """For calibration: contexts request nothing and the program does no arithmetic of its own (probes and
     flag-raising statements removed), so that any change of the register between two observations is
     noise of the interpreter / harness itself."""
-    block[:] = [st for st in block if st[0] not in ("probe", "flags", "poke", "gc", "drop")]
+    block[:] = [st for st in block if st[0] not in ("probe", "flags", "poke", "gc", "drop", "read")]
     for st in block:
         if st[0] == "with":
             st[1].clear()
